@@ -44,6 +44,8 @@ type syncCase struct {
 	restarts []int
 	idx      int
 	staleHit []bool
+	foreign  []bool // see storeCase.foreign
+	lost     []bool
 }
 
 func (sc *syncCase) find(text string) {
@@ -120,19 +122,17 @@ func (sc *syncCase) checkPrimaryCommit() {
 	}
 	t := p.cid
 	sc.pcomSeen = t
+	// replicas that reported (honestly, accepted by the primary) a precommitted state at or beyond t.
+	// (A replica that is later told it diverged discards everything above its committed tx, also what
+	// it had acknowledged; counting current holders would blame the primary for that.)
 	holders := 0
-	for i, rep := range sc.reps {
-		o := dbObs(rep)
-		if o.pid < t {
-			continue
-		}
-		a, ok := sc.replicaAlhAt(i, t)
-		if ok && a == sc.palhs[t-1] {
+	for i := range sc.reps {
+		if sc.acked[i] >= t {
 			holders++
 		}
 	}
 	if holders < sc.acks {
-		sc.find(fmt.Sprintf("primary committed tx %d while only %d of the required %d replicas hold it (precommitted, same Alh)", t, holders, sc.acks))
+		sc.find(fmt.Sprintf("primary committed tx %d while only %d of the required %d replicas had reported a precommitted state >= %d with the primary's Alh", t, holders, sc.acks, t))
 	}
 }
 
@@ -195,6 +195,9 @@ func (sc *syncCase) report(u int, cid uint64, calh []byte, pid uint64, palh []by
 			sc.find(fmt.Sprintf("primary accepted a replica state (precommitted id %d, Alh %x) that is not its own history", pid, palh))
 		}
 	}
+	if cls == 0 && what == "honest" && u < len(sc.acked) && pid > sc.acked[u] {
+		sc.acked[u] = pid
+	}
 	if cls == 0 && mayID > p.cid {
 		sc.find(fmt.Sprintf("primary told a replica it may commit up to %d while its own committed id is %d", mayID, p.cid))
 	}
@@ -230,6 +233,9 @@ func (sc *syncCase) deliver(i int, b []byte, what string) int {
 		sc.find(fmt.Sprintf("rejected delivery changed replica %d state", i))
 	}
 	sc.checkReplica(i)
+	if cls == 0 && sc.diverged[i] {
+		sc.foreign[i] = true
+	}
 	if cls == 0 && what == "next" && !wasDiverged && sc.diverged[i] {
 		zero := make([]byte, 32)
 		if hdr.BlTxId == 0 && string(hdr.BlRoot) != string(zero) {
@@ -284,6 +290,9 @@ func (sc *syncCase) restart(i int) error {
 	sc.stats["restart"]++
 	sc.restarts[i]++
 	sc.checkReplica(i)
+	if sc.foreign[i] {
+		sc.lost[i] = true
+	}
 	return nil
 }
 
@@ -299,9 +308,6 @@ func (sc *syncCase) fetch(i int, deliverIt bool) {
 			// after reopenings: see storeCase.schedule; it is left out of the liveness checks below)
 		}
 		return
-	}
-	if o.pid > sc.acked[i] {
-		sc.acked[i] = o.pid
 	}
 	if mayID > o.cid {
 		sc.dbAllow(i, mayID, mayAlh, "from-primary")
@@ -347,6 +353,8 @@ func runSyncCase(r *vk.Run, idx int) error {
 	}
 	sc.restarts = make([]int, sc.nrep)
 	sc.staleHit = make([]bool, sc.nrep)
+	sc.foreign = make([]bool, sc.nrep)
+	sc.lost = make([]bool, sc.nrep)
 	sc.acked = make([]uint64, sc.nrep)
 	sc.diverged = make([]bool, sc.nrep)
 	defer func() {
@@ -362,6 +370,9 @@ func runSyncCase(r *vk.Run, idx int) error {
 	for it := 0; it < 28; it++ {
 		i := rng.Intn(sc.nrep)
 		p := rng.Intn(100)
+		if sc.lost[i] && p >= 25 {
+			continue // nothing more is done with a replica whose AHT is no longer modelled
+		}
 		o := dbObs(sc.reps[i])
 		pend := uint64(len(sc.palhs)) - dbObs(sc.primary).cid
 		switch {
@@ -441,7 +452,13 @@ func runSyncCase(r *vk.Run, idx int) error {
 				}
 				sc.discard(i, lo+uint64(rng.Intn(int(o.pid-lo+1))))
 			} else {
-				sc.discard(i, uint64(rng.Intn(int(o.pid+2))))
+				// nothing unacknowledged to discard: only calls that are refused or do nothing
+				// (a replica never discards what it has acknowledged unless the primary says it diverged)
+				t := o.pid + 1 + uint64(rng.Intn(2))
+				if rng.Intn(2) == 0 {
+					t = uint64(rng.Intn(int(o.cid + 1)))
+				}
+				sc.discard(i, t)
 			}
 		}
 	}
@@ -449,7 +466,7 @@ func runSyncCase(r *vk.Run, idx int) error {
 	for round := 0; round < 3*len(sc.palhs)+6; round++ {
 		done := dbObs(sc.primary).cid == uint64(len(sc.palhs))
 		for i := range sc.reps {
-			if sc.staleHit[i] {
+			if sc.staleHit[i] || sc.lost[i] {
 				continue
 			}
 			o := dbObs(sc.reps[i])
@@ -464,7 +481,7 @@ func runSyncCase(r *vk.Run, idx int) error {
 	}
 	healthy := 0
 	for i := range sc.reps {
-		if !sc.staleHit[i] {
+		if !sc.staleHit[i] && !sc.lost[i] {
 			healthy++
 		}
 	}
@@ -474,7 +491,7 @@ func runSyncCase(r *vk.Run, idx int) error {
 	}
 	for i := range sc.reps {
 		o := dbObs(sc.reps[i])
-		if !sc.staleHit[i] && healthy >= sc.acks && (o.cid != p.cid || (o.cid > 0 && o.calh != sc.palhs[o.cid-1])) {
+		if !sc.staleHit[i] && !sc.lost[i] && healthy >= sc.acks && (o.cid != p.cid || (o.cid > 0 && o.calh != sc.palhs[o.cid-1])) {
 			sc.find(fmt.Sprintf("after draining, replica %d is at committed id %d (primary %d) or its Alh differs", i, o.cid, p.cid))
 		}
 	}
